@@ -23,6 +23,22 @@ CLAIMED = {
         "Trusts the reference interpreter (pv/tg.py, pv/cg.py), stdlib constructors, and the list of unspecified cells in DESIGN.md section 2.",
         "DESIGN.md section 5, C01",
     ),
+    'C03': (
+        "Hypothesis type-directed generation; model-free differential oracle between the two hand-mirrored passes (try_convert vs collect_errors) at every sub-converter",
+        "For every generated (type, value) and every (sub-type, sub-value) reached by walking the value, the fast pass raises "
+        "ParseInterrupt iff the diagnostic pass returns an error tree, and convert() never raises the 'bug of the Converter' RuntimeError. "
+        "The evidence lists which converter classes were exercised and how often.",
+        "No reference model needed; trusts only the walk of (sub-type, sub-value) pairs in pv/tg.py. User-written converters are out of scope.",
+        "DESIGN.md section 5, C03",
+    ),
+    'C04': (
+        "Hypothesis type-directed generation with adversarial leaves over five entry points + JSON/YAML readers (exception-class oracle, bucketed by innermost pane frame); exhaustive sweep of unsupported-type forms x wrappers",
+        "Every call either returns or raises ConvertError; any other exception is a violation keyed by (exception type, innermost pane frame). "
+        "18 unsupported type forms x 11 embedding wrappers are enumerated: make_converter and from_data must raise TypeError/UnsupportedAnnotation "
+        "identically for every value; every supported type of the grammar must build.",
+        "Values are interchange data with ints under 1000 digits. Trusts the classification of type forms into supported/unsupported taken from docs/index.md.",
+        "DESIGN.md section 5, C04",
+    ),
     'C20': (
         "exhaustive enumeration of a finite name set + Hypothesis search, against an independent canonical renderer",
         "Every 1-3 word name over a 3-letter alphabet (47 988 names) is swept exhaustively through all 5 styles and all 25 style "
